@@ -6,6 +6,7 @@ use crate::proto::{hex, show, unhex};
 use crate::world::World;
 use serde::{Deserialize, Serialize};
 use std::collections::VecDeque;
+use std::os::unix::ffi::OsStrExt;
 use std::time::Duration;
 
 #[derive(Serialize, Deserialize, Clone, Debug, Default, PartialEq)]
@@ -655,6 +656,12 @@ pub fn drive_run_l(w: &mut World, actor: &str, sc: &RunScript, hang: Duration, l
                         Some(Ev::Hello(h)) => {
                             let seq = ctl.seq;
                             let (tt, cc) = match argv0_map.get(&h.argv0) {
+                                Some((t2, c2)) if t2 == "*" => {
+                                    // a script shared by several targets: the process runs in its target's directory
+                                    let cwd = std::path::PathBuf::from(std::ffi::OsStr::from_bytes(&h.cwd));
+                                    let rel = cwd.strip_prefix(&root).map(|p| p.to_string_lossy().into_owned()).unwrap_or_else(|_| String::from("?"));
+                                    (rel, c2.clone())
+                                }
                                 Some((t2, c2)) => (t2.clone(), c2.clone()),
                                 None => {
                                     tr.unknown_starts.push(String::from_utf8_lossy(&h.argv0).into_owned());
